@@ -426,7 +426,34 @@ pub fn run(ctx: &Ctx, rep: &mut Report, prop: &str, case_seed: u64, variant: u64
 		let mut reindex_done_at = None;
 		// the old table keeps waiting for the first `hold` rounds (no reindex batch is run)
 		let hold = rng.range(0, 6);
-		let script = rng.below(3);
+		// (cycles through the four scripts over consecutive cases of the shard, decorrelated from the counted / deep flags)
+		let script = ((variant / 16) + (variant / 64)) % 4;
+		if script == 3 {
+			// scripted "migration reads through the log overlay": a dereference that lowers counts
+			// living in the OLD table is logged but not yet applied when the reindex batch is
+			// planned - the batch must see the logged counts, not what the file still holds
+			let d = db.as_ref().unwrap();
+			if st.sharing.contains_key(&0) && n_files(d) > 0 {
+				deref_share!(d, 0);
+				for _ in 0..8 {
+					if d.verif_status().queued_commits == 0 {
+						break
+					}
+					d.process_commits().map_err(|e| step_err("process_commits", e))?;
+				}
+				if rng.chance(1, 2) {
+					d.flush_logs().map_err(|e| step_err("flush_logs", e))?;
+				}
+				d.process_reindex().map_err(|e| step_err("process_reindex", e))?;
+				st.trace.push("process_reindex with a logged, unapplied dereference".into());
+				st.check(d, rep, "reindex batch planned over a logged, unapplied dereference", &chosen, false)?;
+				settle(d)?;
+				since.clear();
+				since.push(st.snap());
+				st.check(d, rep, "after the batch was applied", &chosen, true)?;
+				rep.count("rc_reindex_over_unapplied_dereference", 1);
+			}
+		}
 		if script == 2 {
 			// scripted "lingering log": counts that sit in the OLD table drop back to one (removal
 			// records that write to the old table), the old table is migrated and dropped - all of
